@@ -13,7 +13,7 @@ LEVEL = "fault_enumeration"
 RULE = ("one read request; the peer answers transmission 1 in two pieces: every split point of the frame x delay of the "
         "second piece {0, T/2, 0.99T, 1.5T} x second piece {exact remainder, +1 byte, -1 byte, same length corrupted, "
         "full answer to another request, same-length remainder of another response, nothing (lone fragment)} x "
-        "what answers transmission 2 {valid frame, remainder only} x {udp-rtu, udp-aa55, tcp} x keep-alive; distinct = "
+        "what answers transmission 2 {valid frame, remainder only} x {udp-rtu, udp-aa55, tcp} x keep-alive; payloads made of AA 55 pairs; the fragmented answer belonging to the retransmission that follows a late corrupted answer; a second caller entering while the first waits for its remainder; distinct = "
         "distinct (framing, keep-alive, count, split point class, second-piece kind, delay, outcome, #tx) tuples")
 ASSUMPTIONS = [
     "pieces sent for one transmission are tagged by the peer; a successful result is compared byte-wise with them",
